@@ -212,9 +212,11 @@ def shrank (op : GOp) (r : GRet) : Bool :=
 /-- All items of buckets `0 .. oc - 1`. -/
 def allItems (oc : Nat) (bkt : Nat → MapSt) : MapSt := (List.range oc).flatMap bkt
 
-/-- The table after `internal_resize`: every item of the old buckets sits in bucket `h key % newcap`. -/
-def rehash (h : Int → Nat) (oc newcap : Nat) (bkt : Nat → MapSt) : Nat → MapSt :=
-  fun b => if b < newcap then (allItems oc bkt).filter (fun e => h e.1 % newcap == b) else []
+/-- Bucket `b` of a table of `newcap` buckets that holds exactly `items`.  The table after `internal_resize` is
+    `rehashOf h newcap (allItems oc bkt)`: every item of the old buckets `0 .. oc - 1` sits in bucket `h key % newcap`.
+    (The list of all items is an argument so that it is computed once, when the table is built.) -/
+def rehashOf (h : Int → Nat) (newcap : Nat) (items : MapSt) (b : Nat) : MapSt :=
+  if b < newcap then items.filter (fun e => h e.1 % newcap == b) else []
 
 /-! ### Event rendering (the only place where events are built) -/
 
@@ -375,8 +377,9 @@ def step (cfg : Cfg) (s : St) (t : Tid) : Option (St × Ev) :=
   | .zCnt r old =>
     some ({ s with pc := upd s.pc t (.zMask r old (s.mask + 1)) }, evLdN "mask" s.mask)
   | .zMask r old oc =>
-    some ({ s with mask := 2 * old - 1, bkt := rehash cfg.h oc (2 * old) s.bkt,
-                   pc := upd s.pc t (.zMove r (allItems oc s.bkt).length) }, evStN "mask" (2 * old - 1))
+    let items := allItems oc s.bkt
+    some ({ s with mask := 2 * old - 1, bkt := rehashOf cfg.h (2 * old) items,
+                   pc := upd s.pc t (.zMove r items.length) }, evStN "mask" (2 * old - 1))
   | .zMove r n =>
     match n with
     | n' + 1 => some ({ s with pc := upd s.pc t (.zMove r n') }, evLdN "mask" s.mask)
